@@ -490,8 +490,20 @@ func (prop) Run(raw json.RawMessage, scratch string) core.Result {
 	case "crash":
 		obsTerm = "ObsCrash"
 	}
-	res.Coq = fmt.Sprintf("mk_case %s %s %s %s %s %s", core.Hex(pkgPathOf(&in, "target")), core.CoqList(tis),
-		core.CoqBool(in.shadowClass()), core.CoqBool(in.ifaceClass()), core.CoqBool(obs.InDomain), obsTerm)
+	// tag text that no raw string literal can carry (CR, NUL, BOM, invalid UTF-8, backquote): what the Go scanner does
+	// with the rendered literal (drops CR, rejects the others) is not modelled — such cases are notes only
+	exotic := false
+	for _, w := range domainNotes {
+		if strings.HasPrefix(w, "tag text outside") {
+			exotic = true
+		}
+	}
+	if exotic {
+		res.Tags = append(res.Tags, "exotic_tag_text(not_in_coq)")
+	} else {
+		res.Coq = fmt.Sprintf("mk_case %s %s %s %s %s %s", core.Hex(pkgPathOf(&in, "target")), core.CoqList(tis),
+			core.CoqBool(in.shadowClass()), core.CoqBool(in.ifaceClass()), core.CoqBool(obs.InDomain), obsTerm)
+	}
 
 	// ---- distribution ----
 	res.Tags = append(res.Tags, "expected="+obs.Expected, "outcome="+obs.Outcome)
